@@ -7,6 +7,7 @@ mod prog;
 mod refint;
 mod rng;
 mod slices;
+mod web;
 
 use crate::core::{report_json, run_slice, shrink, Case};
 use crate::model::Driver;
@@ -119,6 +120,10 @@ fn main() {
             "c15" => {
                 let (c, e) = slices::cli::cases(&mut rng, &tier);
                 (c, e, "generated programs (all lines numbered, non-empty, tokenizable; a quarter with 40-deep nesting and statically wrong unreachable lines; a fifth ending without a newline): SourceFileAnalyzer::analyze(..).into_interpreter() vs line-by-line entry in-process (snapshot, LIST, RUN), and the real `abasic` binary in file mode vs the same lines + RUN piped into an interactive session for --warnings/--tracing/--skip-check combinations".into())
+            }
+            "c19" => {
+                let (c, e) = slices::webs::cases(&mut rng, &tier);
+                (c, e, "page event sequences (program file loaded at start-up incl. failing / unnumbered / blank / CRLF lines and NEW inside, submitted lines and replies incl. indented lines with tokenizer errors, NEW, TRACE, break, timer ticks, typing while running) through a transliteration of main.ts driving the real JsInterpreter natively and a core interpreter in lock step; plus NEW-then-probes vs fresh-then-probes; non-trivial = at least two kinds of event".into())
             }
             "c14" => {
                 let (c, e) = slices::list::cases(&mut rng, &tier);
